@@ -71,9 +71,9 @@ fn k07_keyflags_setters_write_len_matches_written() {
 /// parser): `write_len()` equals the number of octets `to_writer` emits, and the emitted octets
 /// are the parsed body on every bit RFC 9580 5.2.3.29 defines (first octet: all 8 bits, second
 /// octet: 0x04 | 0x08) and on every octet after the second.
-/// NOTE (found by this harness, outside C05): the reserved bits 0x03 and 0xF0 of the SECOND octet
-/// do not survive parse -> serialize (body `00 80` is written back as `00 00`; the `bitfields`
-/// padding fields are cleared by `from_bits`), so the exact round trip is asserted under that mask.
+/// History: this harness found that the reserved bits 0x03 and 0xF0 of the SECOND octet did not survive
+/// parse -> serialize (body `00 80` was written back as `00 00`: `bitfields` padding fields are always
+/// zero); repaired in /repo by "fix: KeyFlags keeps the reserved bits ..", the round trip is now exact.
 fn keyflags_parsed<const N: usize>() {
     let bytes: [u8; N] = kani::any();
     let parsed = KeyFlags::try_from_reader(&bytes[..]);
@@ -91,8 +91,7 @@ fn keyflags_parsed<const N: usize>() {
     assert!(w.len == N, "serialized key flags length differs from the parsed body length");
     let mut i = 0;
     while i < N {
-        let mask: u8 = if i == 1 { 0x0C } else { 0xFF };
-        assert!(w.buf[i] & mask == bytes[i] & mask, "serialized key flags differ from the parsed body");
+        assert!(w.buf[i] == bytes[i], "serialized key flags differ from the parsed body");
         i += 1;
     }
     kani::cover!(N == 0 || bytes[N - 1] != 0);
@@ -138,4 +137,17 @@ fn k07_keyflags_fields_write_len_matches_written() {
     assert!(f.write_len() == w.len, "KeyFlags::write_len() != number of octets written");
     kani::cover!(original_len == 1 && bits == 0x0800 && w.len == 2);
     kani::cover!(original_len == 0 && w.len == 0);
+}
+
+/// K07c (C05, C02, C11): the macro-generated `KnownKeyFlags::from_bits` / `into_bits` are the identity on all
+/// 16 bits.  This is the T7 assumption of the Verus shims
+/// (shims/subpkt_fidelity.rs, shims/serlen_b_sig.rs) checked against the compiled macro expansion.
+/// Complete: loop-free, every u16 / u8.
+#[kani::proof]
+fn k07c_known_key_flags_bits_identity() {
+    let bits: u16 = kani::any();
+    assert!(KnownKeyFlags::from_bits(bits).into_bits() == bits, "KnownKeyFlags from_bits/into_bits is not the identity");
+    // (KnownFeatures is NOT asserted: its `_libre_*` / `_padding` fields are bitfields padding, which from_bits zeroes -
+    // Kani: from_bits(128).into_bits() == 0 - but Features never calls from_bits: it stores the octet with the tuple
+    // constructor `KnownFeatures(value[0])` and writes `k.0`, so Features round trips; findings/FT_demo_test.rs)
 }
